@@ -9,6 +9,7 @@ import (
 	"github.com/taurusgroup/multi-party-sig/internal/ot"
 	"github.com/taurusgroup/multi-party-sig/internal/params"
 	"github.com/taurusgroup/multi-party-sig/internal/round"
+	"github.com/taurusgroup/multi-party-sig/internal/safecbor"
 	"github.com/taurusgroup/multi-party-sig/pkg/math/curve"
 	"github.com/taurusgroup/multi-party-sig/pkg/math/sample"
 	"github.com/taurusgroup/multi-party-sig/pkg/party"
@@ -26,6 +27,34 @@ type ConfigReceiver struct {
 	Public curve.Point
 	// ChainKey is the shared chain key.
 	ChainKey []byte
+}
+
+// Validate checks that the config holds everything that is needed to take part in a protocol.
+func (c *ConfigReceiver) Validate() error {
+	if c == nil {
+		return errors.New("config: config is nil")
+	}
+	if c.Setup == nil {
+		return errors.New("config: OT setup is missing")
+	}
+	if c.SecretShare == nil || c.SecretShare.IsZero() || c.Public == nil || c.Public.IsIdentity() {
+		return errors.New("config: secret share or public key is missing")
+	}
+	if l := len(c.ChainKey); l != 0 && l != params.SecBytes {
+		return fmt.Errorf("config: chain key has %d bytes, expected %d", l, params.SecBytes)
+	}
+	return nil
+}
+
+// UnmarshalCBOR restores a config stored with cbor.Marshal. The receiver must come from EmptyConfigReceiver.
+// Malformed data is an error, and so is data that does not describe a usable config.
+func (c *ConfigReceiver) UnmarshalCBOR(data []byte) error {
+	type plain ConfigReceiver // the same fields, decoded the default way
+	c.Setup = nil
+	if err := safecbor.Unmarshal(data, (*plain)(c)); err != nil {
+		return err
+	}
+	return c.Validate()
 }
 
 // Group returns the elliptic curve group associate with this config.
@@ -88,6 +117,34 @@ type ConfigSender struct {
 	ChainKey []byte
 }
 
+// Validate checks that the config holds everything that is needed to take part in a protocol.
+func (c *ConfigSender) Validate() error {
+	if c == nil {
+		return errors.New("config: config is nil")
+	}
+	if c.Setup == nil {
+		return errors.New("config: OT setup is missing")
+	}
+	if c.SecretShare == nil || c.SecretShare.IsZero() || c.Public == nil || c.Public.IsIdentity() {
+		return errors.New("config: secret share or public key is missing")
+	}
+	if l := len(c.ChainKey); l != 0 && l != params.SecBytes {
+		return fmt.Errorf("config: chain key has %d bytes, expected %d", l, params.SecBytes)
+	}
+	return nil
+}
+
+// UnmarshalCBOR restores a config stored with cbor.Marshal. The receiver must come from EmptyConfigSender.
+// Malformed data is an error, and so is data that does not describe a usable config.
+func (c *ConfigSender) UnmarshalCBOR(data []byte) error {
+	type plain ConfigSender // the same fields, decoded the default way
+	c.Setup = nil
+	if err := safecbor.Unmarshal(data, (*plain)(c)); err != nil {
+		return err
+	}
+	return c.Validate()
+}
+
 // Group returns the elliptic curve group associate with this config.
 func (c *ConfigSender) Group() curve.Curve {
 	return c.Public.Curve()
@@ -105,6 +162,9 @@ func (c *ConfigSender) Group() curve.Curve {
 // If the secret share and public point are not nil, a refresh is done instead.
 func StartKeygen(group curve.Curve, receiver bool, selfID, otherID party.ID, secretShare curve.Scalar, public curve.Point, pl *pool.Pool) protocol.StartFunc {
 	return func(sessionID []byte) (round.Session, error) {
+		if group == nil {
+			return nil, errors.New("keygen.StartKeygen: group is nil")
+		}
 		info := round.Info{
 			ProtocolID:       "doerner/keygen",
 			FinalRoundNumber: 3,
